@@ -551,3 +551,24 @@ def reapply_in_tail(nodes, i):
         else:
             return False          # operand of an operator, list item, side effect, apply ...
         c = p
+
+
+# ------------------------------------------------------------------ C05 classes (ports of Proofs/C05/Known.v)
+def silent(nodes, i):
+    """the subtree compiles to no instruction: a group with nothing inside, nested / combined by |>"""
+    if i is None or i >= len(nodes):
+        return False
+    n = nodes[i]
+    if n["def"] == "Group":
+        return True if n["right"] is None else silent(nodes, n["right"])
+    if n["def"] == "ElseJump":
+        return n["left"] is not None and n["right"] is not None and silent(nodes, n["left"]) and silent(nodes, n["right"])
+    return False
+
+
+def has_empty_body(nodes, root):
+    for i in reachable(nodes, root):
+        n = nodes[i]
+        if n["def"] in ("And", "Or", "JumpIfTrue", "JumpIfFalse", "NestedExpression") and n["right"] is not None and silent(nodes, n["right"]):
+            return True
+    return False
